@@ -630,3 +630,36 @@ func (g *Graph) DominatedNodes(cb *cfg.Block, k int) []ast.Node {
 	}
 	return out
 }
+
+// EdgeLeavesLoop reports whether control taking edge k of block cb leaves the
+// innermost enclosing for/range loop without first returning to the loop head
+// (i.e. the edge leads to a break or to code after the loop).
+func (g *Graph) EdgeLeavesLoop(cb *cfg.Block, k int) bool {
+	if k >= len(cb.Succs) {
+		return false
+	}
+	seen := map[*cfg.Block]bool{}
+	var walk func(b *cfg.Block) bool
+	walk = func(b *cfg.Block) bool {
+		if seen[b] {
+			return true // a diamond re-joins; a cycle would have to pass the loop head, which answers false
+		}
+		seen[b] = true
+		switch b.Kind {
+		case cfg.KindForDone, cfg.KindRangeDone:
+			return true
+		case cfg.KindForLoop, cfg.KindForPost, cfg.KindRangeLoop, cfg.KindForBody, cfg.KindRangeBody:
+			return false
+		}
+		if len(b.Succs) == 0 {
+			return true // a return leaves the loop as well
+		}
+		for _, s := range b.Succs {
+			if !walk(s) {
+				return false
+			}
+		}
+		return true
+	}
+	return walk(cb.Succs[k])
+}
